@@ -277,8 +277,17 @@ def _execute_cyclic(spec):
         vs.append(Violation(ID, "C06." + clause, "cyclic", detail))
     with W.active(sim):
         G = gen.to_nx(world["graph"], "flow")
+        # additional start / end nodes (possibly inside an SCC, possibly with other in-/out-arcs): the global source /
+        # sink are then adjacent to inner nodes as well
+        rng2 = random.Random(H(world["seed"], "c06st"))
+        st_kw = {}
+        if rng2.random() < 0.4:
+            st_kw["additional_starts"] = [rng2.choice(world["graph"]["nodes"])]
+            if rng2.random() < 0.7:
+                st_kw["additional_ends"] = [rng2.choice(world["graph"]["nodes"])]
+            counters["cyclic:additional_starts_ends"] = 1
         try:
-            SG = fp.stDiGraph(G)
+            SG = fp.stDiGraph(G, **st_kw)
         except ValueError:
             return {"violations": [], "digest": "x", "sig": None, "nontrivial": False, "counters": {"cyclic:no_source_or_sink": 1}}
         succ = {u: list(SG.successors(u)) for u in SG.nodes()}
@@ -303,7 +312,7 @@ def _execute_cyclic(spec):
             ign = [e for e in base_edges if rng.random() < 0.25]
             if len(ign) == len(base_edges):
                 ign = ign[1:]
-            model = fp.kPathCoverCycles(G, k=world["k"], elements_to_ignore=ign)
+            model = fp.kPathCoverCycles(G, k=world["k"], elements_to_ignore=ign, **st_kw)
         except Exception as e:
             model = None
             counters["cyclic:model_exc:" + type(e).__name__] = 1
